@@ -84,7 +84,7 @@ ParPairs(lay, flt) ==
 
 TextPairs(lay, flt, o) ==
   (IF IsV3(lay.ver)
-   THEN << <<A_BEGINANALYSIS, ZPad(0, 8)>>, <<A_ENDANALYSIS, ZPad(0, 8)>>,
+   THEN << <<A_BEGINANALYSIS, ZPad(IF lay.an = "text" THEN o.ab ELSE 0, 8)>>, <<A_ENDANALYSIS, ZPad(IF lay.an = "text" THEN o.ae ELSE 0, 8)>>,
            <<A_BEGINSTEXT, ZPad(o.sb, 8)>>, <<A_ENDSTEXT, ZPad(o.se, 8)>>,
            <<A_BEGINDATA, ZPad(FV(flt, "t_db", o.db), 8)>>, <<A_ENDDATA, ZPad(FV(flt, "t_de", o.de), 8)>> >>
    ELSE <<>>)
@@ -94,8 +94,10 @@ TextPairs(lay, flt, o) ==
   \o ParPairs(lay, flt)
 
 STextPairs == << <<<<83, 75, 49>>, <<115, 47, 118>>>> >>        \* SK1 -> "s/v" (value holds the delimiter)
+APairs == << <<<<65, 75, 49>>, <<97, 118, 49>>>>, <<<<65, 75, 50>>, <<97, 47, 50>>>> >>     \* AK1 -> av1, AK2 -> "a/2"
+HasAnalysis(lay) == lay.an \in {"header", "text"} /\ (lay.an = "text" => IsV3(lay.ver))
 
-ZeroOff == [sb |-> 0, se |-> 0, db |-> 0, de |-> 0]
+ZeroOff == [sb |-> 0, se |-> 0, db |-> 0, de |-> 0, ab |-> 0, ae |-> 0]
 NoFault == [k |-> "none", field |-> "-", how |-> "-", at |-> 0]
 
 Offsets(lay) ==
@@ -108,7 +110,10 @@ Offsets(lay) ==
       db == te + 1 + Len(st) + lay.pad
       nb == Len(DataBytes(lay))
       de == IF lay.endc = "last" THEN db + nb - 1 ELSE db + nb
-  IN [tb |-> tb, te |-> te, sb |-> sb, se |-> se, db |-> db, de |-> de, st |-> st]
+      at == IF HasAnalysis(lay) THEN Encode(APairs, SLASH) ELSE <<>>
+      ab == IF at = <<>> THEN 0 ELSE db + nb + lay.pad
+      ae == IF at = <<>> THEN 0 ELSE ab + Len(at) - 1
+  IN [tb |-> tb, te |-> te, sb |-> sb, se |-> se, db |-> db, de |-> de, st |-> st, ab |-> ab, ae |-> ae, at |-> at]
 
 Write(lay, flt) ==
   LET o == Offsets(lay)
@@ -117,12 +122,14 @@ Write(lay, flt) ==
       f == (VerStr(lay.ver) \o Spaces(4))
            \o RJust(DigitsOf(FV(flt, "h_tb", o.tb)), 8) \o RJust(DigitsOf(FV(flt, "h_te", o.te)), 8)
            \o RJust(DigitsOf(FV(flt, "h_db", hdb)), 8) \o RJust(DigitsOf(FV(flt, "h_de", hde)), 8)
-           \o (IF lay.ver = "2.0" THEN Spaces(16) ELSE RJust(<<48>>, 8) \o RJust(<<48>>, 8))
+           \o (IF lay.an = "header" THEN RJust(DigitsOf(o.ab), 8) \o RJust(DigitsOf(o.ae), 8)
+               ELSE IF lay.ver = "2.0" THEN Spaces(16) ELSE RJust(<<48>>, 8) \o RJust(<<48>>, 8))
            \o Spaces(lay.pad)
            \o Encode(TextPairs(lay, flt, o), SLASH)
            \o o.st
            \o Zeros(lay.pad)
            \o DataBytes(lay)
+           \o (IF o.at = <<>> THEN <<>> ELSE Zeros(lay.pad) \o o.at)
   IN IF flt.k = "trunc" THEN SubSeq(f, 1, flt.at)
      ELSE IF flt.k = "empty" THEN <<>>
      ELSE f
@@ -155,7 +162,7 @@ S0(f, rbits) ==
   [pc |-> "Header", why |-> "-", f |-> f, rbits |-> rbits, v3 |-> FALSE,
    tb |-> 0, te |-> 0, db |-> 0, de |-> 0, ab |-> 0, ae |-> 0, delim |-> 0,
    text |-> {}, D |-> 0, widths |-> <<>>, dt |-> "-", big |-> FALSE, N |-> 0,
-   begin |-> 0, end |-> 0, data |-> <<>>, warn |-> FALSE]
+   begin |-> 0, end |-> 0, data |-> <<>>, warn |-> FALSE, an |-> {}, anwarn |-> FALSE]
 Refuse(s, why) == [s EXCEPT !.pc = "Refused", !.why = why]
 
 StepHeader(s) ==
@@ -229,11 +236,15 @@ StepNextData(s) ==
   IF ~GetInt(s.text, A_NEXTDATA).ok THEN Refuse(s, "nextdata") ELSE [s EXCEPT !.pc = "Analysis"]
 
 (* ANALYSIS parse errors are swallowed; only the TEXT keyword lookups can refuse *)
+ReadAnalysis(s, b, e) ==            \* try: read_fcs_text_segment(...) except Exception: warn, {}
+  LET r == Segment(s.f, b, e, s.delim, TRUE) IN
+  IF r.ok THEN [s EXCEPT !.pc = "Ranges", !.an = r.dict] ELSE [s EXCEPT !.pc = "Ranges", !.an = {}, !.anwarn = TRUE]
 StepAnalysis(s) ==
-  IF s.ab # 0 /\ s.ae # 0 THEN [s EXCEPT !.pc = "Ranges"]
+  IF s.ab # 0 /\ s.ae # 0 THEN ReadAnalysis(s, s.ab, s.ae)
   ELSE IF s.v3 THEN
-       IF ~GetInt(s.text, A_BEGINANALYSIS).ok \/ ~GetInt(s.text, A_ENDANALYSIS).ok
-       THEN Refuse(s, "analysis-keywords") ELSE [s EXCEPT !.pc = "Ranges"]
+       LET b == GetInt(s.text, A_BEGINANALYSIS)  e == GetInt(s.text, A_ENDANALYSIS) IN
+       IF ~b.ok \/ ~e.ok THEN Refuse(s, "analysis-keywords")
+       ELSE IF b.v # 0 /\ e.v # 0 THEN ReadAnalysis(s, b.v, e.v) ELSE [s EXCEPT !.pc = "Ranges"]
   ELSE [s EXCEPT !.pc = "Ranges"]
 
 StepRanges(s) ==
@@ -314,7 +325,7 @@ RECURSIVE Run(_)
 Run(s) == IF Terminal(s) THEN s ELSE Run(Step(s))
 
 (* the outcome in the vocabulary the harness projects to *)
-OutcomeOf(s) == IF s.pc = "Refused" THEN [k |-> "refused", why |-> s.why, N |-> 0, D |-> 0, data |-> <<>>, text |-> {}]
-                ELSE [k |-> "ok", why |-> "-", N |-> s.N, D |-> s.D, data |-> s.data, text |-> s.text]
+OutcomeOf(s) == IF s.pc = "Refused" THEN [k |-> "refused", why |-> s.why, N |-> 0, D |-> 0, data |-> <<>>, text |-> {}, an |-> {}]
+                ELSE [k |-> "ok", why |-> "-", N |-> s.N, D |-> s.D, data |-> s.data, text |-> s.text, an |-> s.an]
 ReadFile(f, rbits) == OutcomeOf(Run(S0(f, rbits)))
 =============================================================================
